@@ -4,7 +4,7 @@
 From Coq Require Import ZArith NArith List Bool Lia Arith.
 From FV.Model Require Import Bytes Bson Metrics Codec Collector Wf RoundTrip CollectorOk Instance JsonPipe JsonPipeOk.
 From FV.Proofs Require Import BytesProofs BsonProofs MetricsProofs CodecChunk CodecProofs CollectorBase
-  CollectorKinds CollectorInv CollectorLog.
+  CollectorKinds CollectorInv CollectorLog CollectorSizes CollectorProofs.
 Import ListNotations.
 Open Scope Z_scope.
 
@@ -335,6 +335,74 @@ Proof.
     + discriminate Hr.
 Qed.
 
+(* the documents of the lines the library accepts *)
+Definition parsed (ls : list bytes) : list doc :=
+  flat_map (fun l => match parse l with PDoc d => [d] | PBad _ => [] end) ls.
+
+Lemma parsed_all : forall ls docs, Forall2 (fun l d => parse l = PDoc d) ls docs -> parsed ls = docs.
+Proof.
+  intros ls docs H. induction H as [|l d ls docs Hp H IH]; [reflexivity|].
+  unfold parsed. cbn [flat_map]. rewrite Hp. cbn [app]. f_equal. exact IH.
+Qed.
+
+Lemma IDoc_in : forall d docs, In (IDoc d) (map IDoc docs) -> In d docs.
+Proof. intros d docs H. apply in_map_iff in H. destruct H as (x & Hx & Hin). injection Hx as ->. exact Hin. Qed.
+
+(* composition with C08 (every Add of the dynamic collector succeeds when no
+   document changes value types alone): the call returns the complete result or,
+   on a bad input, an error *)
+Theorem json_total : forall ls e n evs s r,
+  1 <= n < 2 ^ 31 -> docs_ok KDyn (parsed ls) ->
+  let items := script parse ls e in
+  j_run deflate (j_init true n items) evs = Some s -> j_res s = Some r ->
+  j_early deflate true true (j_init true n items) evs = false ->
+  (e = ScanEof /\ Forall2 (fun l d => parse l = PDoc d) ls (parsed ls) /\
+   exists out dec, r = JOk out /\ decode_ftdc inflate None out = Some dec /\
+                   dc_docs dec = map strip_doc (parsed ls) /\ forallb (fun z => z <=? n) (dc_sizes dec) = true) \/
+  (input_bad parse ls e /\ exists e', r = JErr e').
+Proof.
+  intros ls e n evs s r Hn Hok items Hrun Hres Hearly.
+  pose proof (j_run_outcome deflate true evs (j_init true n items) _ _ eq_refl Hrun Hres Hearly) as (sent & c & Hfed & Hcases).
+  cbn [j_init j_src j_coll] in Hfed, Hcases. fold items in Hcases.
+  destruct (script_cases parse ls e) as [(He & docs & HF & Hs)|(Hbad & sent0 & k0 & Hs & Hk0)]; fold items in Hs.
+  - left. split; [exact He|]. rewrite (parsed_all ls docs HF) in *. split; [exact HF|].
+    destruct Hok as (Hwf & Hdist & Hnt).
+    assert (Henv : env_ok (fun d => In d docs) KDyn).
+    { split; [|exact Hdist]. intros d Hd. exact (proj1 (Forall_forall _ _) Hwf d Hd). }
+    destruct Hcases as [(Hsrc & Hr)|[(k & rest & Hsrc & _)|[(d & rest & now & a & Hsrc & Ha & Hne & Hr)|(Hc & _)]]].
+    + rewrite Hs in Hsrc. apply map_IDoc_inj in Hsrc. subst sent.
+      destruct (fed_flush_decodes deflate inflate inflate_deflate (fun d => In d docs) Henv n Hn docs c Hfed)
+        as (out & dec & Hfl & Hdec & Hdocs & Hsz).
+      { apply Forall_forall. intros d Hd. exact Hd. }
+      exists out, dec. rewrite Hr, Hfl. repeat split; assumption.
+    + exfalso. rewrite Hs in Hsrc. exact (docs_no_err _ _ _ _ Hsrc).
+    + exfalso. rewrite Hs in Hsrc.
+      assert (Hd : In d docs).
+      { apply IDoc_in. rewrite Hsrc. apply in_or_app. right. left. reflexivity. }
+      assert (Hsent : Forall (fun x => In x docs) sent).
+      { apply Forall_forall. intros x Hx. apply IDoc_in. rewrite Hsrc. apply in_or_app. left. apply in_docs. exact Hx. }
+      destruct (fed_holds deflate (fun d => In d docs) Henv n Hn _ _ _ Hfed Hsent [] (dyn_holds_init deflate _ n Hn))
+        as (gsp & Hinv & _).
+      destruct (c8_add deflate KDyn docs n (CDyn c) new_file [] gsp d now (or_introl eq_refl) ltac:(lia) Henv Hnt Hinv
+                  ltac:(intros _; reflexivity) Hd) as (c' & w' & _ & _ & Hadd & _).
+      cbn [c_add] in Hadd. destruct (dy_add c d now) as [x' a']. cbn [snd] in Ha. subst a'.
+      injection Hadd as _ _ Ea. apply Hne. exact Ea.
+    + discriminate Hc.
+  - right. split; [exact Hbad|].
+    destruct Hcases as [(Hsrc & Hr)|[(k & rest & Hsrc & Hr)|[(d & rest & now & a & _ & _ & Hne & Hr)|(Hc & _)]]].
+    + exfalso. rewrite Hs in Hsrc. symmetry in Hsrc. exact (docs_no_err _ _ _ _ Hsrc).
+    + assert (Hk : src_is_eof k = false).
+      { assert (Hin : In (IErr k) (map IDoc sent0 ++ [IErr k0])).
+        { rewrite <- Hs, Hsrc. apply in_or_app. right. left. reflexivity. }
+        apply in_app_or in Hin. destruct Hin as [Hin|[Hin|[]]]; [exfalso; exact (IErr_not_in_docs _ _ Hin)|].
+        injection Hin as <-.
+        destruct Hk0 as [->|[->|(b & l & -> & _ & Hp)]]; try reflexivity.
+        destruct b; [exfalso; exact (parse_no_eof l Hp)|reflexivity]. }
+      rewrite Hk in Hr. eexists. exact Hr.
+    + eexists. exact Hr.
+    + discriminate Hc.
+Qed.
+
 End Json.
 
 (* ================================================================== CollectRuntime *)
@@ -519,12 +587,21 @@ Lemma Forall2_left : forall (A B : Type) (P : B -> Prop) (R : A -> B -> Prop) l1
   Forall2 R l1 l2 -> (forall a b, R a b -> P b) -> Forall P l2.
 Proof. intros A B P R l1 l2 H HP. induction H as [|a b l1 l2 Hab H IH]; constructor; [exact (HP a b Hab)|exact IH]. Qed.
 
-Lemma sample_ids_gens : forall (gen : Z -> Z -> doc),
-  (forall i t, sample_id (strip_doc (gen i t)) = Some i) ->
-  forall ts i, map (fun d => sample_id (strip_doc d)) (gens gen i ts) = map Some (zseq i (length ts)).
+Lemma Forall2_map_r : forall (A B C : Type) (R : A -> B -> Prop) (R' : A -> C -> Prop) (f : B -> C) l1 l2,
+  Forall2 R l1 l2 -> (forall a b, R a b -> R' a (f b)) -> Forall2 R' l1 (map f l2).
 Proof.
-  intros gen Hid. induction ts as [|t ts IH]; intros i; [reflexivity|].
-  cbn [gens map length zseq]. rewrite Hid, IH. reflexivity.
+  intros A B C R R' f l1 l2 H HR. induction H as [|a b l1 l2 Hab H IH]; [constructor|].
+  cbn [map]. constructor; [exact (HR a b Hab)|exact IH].
+Qed.
+
+Lemma sample_ids_gens : forall (gen : Z -> Z -> doc),
+  (forall i t, 0 <= i < 2 ^ 63 -> sample_id (strip_doc (gen i t)) = Some i) ->
+  forall ts i, 0 <= i -> i + Z.of_nat (length ts) <= 2 ^ 63 ->
+  map (fun d => sample_id (strip_doc d)) (gens gen i ts) = map Some (zseq i (length ts)).
+Proof.
+  intros gen Hid. induction ts as [|t ts IH]; intros i Hi Hb; [reflexivity|].
+  cbn [gens map zseq]. change (length (t :: ts)) with (S (length ts)) in Hb |- *. cbn [zseq map].
+  rewrite Hid by lia. rewrite IH by lia. reflexivity.
 Qed.
 
 Section RuntimeFiles.
@@ -547,7 +624,8 @@ Proof.
   intros n w gs Hn Hw.
   destruct (decode_wstream deflate inflate inflate_deflate (n - 1) _ _ ltac:(lia) Hw) as [metas Hdec].
   eexists. split; [exact Hdec|]. cbn [dc_docs dc_sizes]. split; [reflexivity|].
-  replace n with (n - 1 + 1) at 1 by lia. apply glen_bound. apply (wstream_lens deflate _ (emitted w)). exact Hw.
+  pose proof (glen_bound (n - 1) gs (wstream_lens deflate _ (emitted w) _ Hw)) as Hb.
+  replace (n - 1 + 1) with n in Hb by lia. exact Hb.
 Qed.
 
 Theorem runtime_files : forall o evs s,
@@ -569,7 +647,7 @@ Proof.
   unfold r_init in Hrun. rewrite Hvalid in Hrun. fold n in Hrun.
   assert (Hinit : rt_inv deflate gen n (mkR n 0 [] (new_stream n, new_file) None) []).
   { split; [reflexivity|]. split; [reflexivity|]. split; [left; reflexivity|].
-    exists [], [], []. split; [constructor|]. split; [apply cur_init; exact Hn|]. split; [reflexivity|].
+    exists [], [], []. split; [constructor|]. split; [apply cur_init; assumption|]. split; [reflexivity|].
     intros E. discriminate E. }
   pose proof (rt_run deflate gen gen_wf gen_schema n Hn evs _ [] s Hinit Hrun) as Hinv. cbn [app] in Hinv. fold ts in Hinv.
   destruct Hinv as (_ & Hid & Hres & fs & gsw & g & Hfs & Hcur & Hacc & Hdone).
@@ -580,12 +658,11 @@ Proof.
   destruct Hcur as (_ & _ & Hw & Hemp).
   split; [|split; [|split]].
   - rewrite Hfiles. apply Forall2_app.
-    + clear -Hfs Hn inflate_deflate. induction Hfs as [|w gs ws gss [Hwg _] _ IH]; [constructor|].
-      cbn [map]. constructor; [apply wstream_file; assumption|exact IH].
+    + apply (Forall2_map_r _ _ _ _ _ _ _ _ Hfs). intros w gs [Hwg _]. apply wstream_file; assumption.
     + constructor; [apply wstream_file; assumption|constructor].
   - rewrite concat_app. cbn [concat]. rewrite app_nil_r, <- app_assoc. exact Hacc.
-  - rewrite removelast_last. clear -Hfs. induction Hfs as [|w gs ws gss [_ Hne] _ IH]; [constructor|].
-    cbn [map]. constructor; [exact Hne|exact IH].
+  - rewrite removelast_last. apply Forall_map.
+    apply (Forall2_left _ _ _ _ _ _ Hfs). intros w gs [_ Hne]. exact Hne.
   - intros Hd. specialize (Hdone Hd). subst g. split; [reflexivity|]. rewrite last_last.
     destruct (Hemp eq_refl) as [_ ->]. reflexivity.
 Qed.
@@ -611,6 +688,8 @@ Qed.
 End RuntimeFiles.
 
 (* ================================================================== D17: the timer arm returns early *)
+(* three lines that all parse; the timer fires after the first document: a nil
+   error and an output that decodes to one sample *)
 Definition wit_doc (v : Z) : doc := [([97]%N, VInt64 v)].
 Definition wit_parse (l : bytes) : pres := match l with [b] => PDoc (wit_doc (Z.of_N b)) | _ => PBad false end.
 Definition wit_lines : list bytes := [[49]%N; [50]%N; [51]%N].
@@ -621,13 +700,151 @@ Theorem json_timer_refuted :
   (forall l, wit_parse l <> PBad true) /\
   (exists docs, Forall2 (fun l d => wit_parse l = PDoc d) wit_lines docs /\ length docs = 3%nat) /\
   j_early deflate_flag false true (j_init true 5 items) evs = false /\
-  exists s out dec, j_run deflate_flag (j_init true 5 items) evs = Some s /\ j_res s = Some (JOk out) /\
-    decode_ftdc inflate_flag None out = Some dec /\ dc_docs dec = [wit_doc 49].
+  exists s out, j_run deflate_flag (j_init true 5 items) evs = Some s /\ j_res s = Some (JOk out) /\
+    option_map dc_docs (decode_ftdc inflate_flag None out) = Some [wit_doc 49].
 Proof.
   cbv zeta. split; [|split; [|split]].
   - intros l. unfold wit_parse. destruct l as [|b [|c l]]; discriminate.
   - exists [wit_doc 49; wit_doc 50; wit_doc 51]. split; [|reflexivity].
-    repeat constructor.
+    constructor; [reflexivity|]. constructor; [reflexivity|]. constructor; [reflexivity|constructor].
   - vm_compute. reflexivity.
-  - vm_compute. eexists. eexists. eexists. split; [reflexivity|]. split; [reflexivity|]. split; reflexivity.
+  - eexists. eexists. split; [vm_compute; reflexivity|]. split; [vm_compute; reflexivity|]. vm_compute. reflexivity.
+Qed.
+
+(* ================================================================== statements over the raw input *)
+Lemma scan_raw_spec : forall limit rerr raws ts e, scan_raw limit rerr raws = (ts, e) ->
+  match e with
+  | ScanTooLong => exists pre l post, raws = pre ++ l :: post /\ ts = map drop_cr pre /\
+                     Forall (fun x => (N.of_nat (length x) < limit)%N) pre /\ (limit <= N.of_nat (length l))%N
+  | _ => ts = map drop_cr raws /\ Forall (fun x => (N.of_nat (length x) < limit)%N) raws /\
+         (e = ScanReadErr <-> rerr = true)
+  end.
+Proof.
+  intros limit rerr. induction raws as [|l raws IH]; intros ts e H; cbn [scan_raw] in H.
+  - injection H as <- <-. destruct rerr; (split; [reflexivity|]; split; [constructor|]; split; congruence).
+  - destruct (limit <=? N.of_nat (length l))%N eqn:El.
+    + injection H as <- <-. apply N.leb_le in El. exists [], l, raws. split; [reflexivity|]. split; [reflexivity|].
+      split; [constructor|exact El].
+    + apply N.leb_gt in El. destruct (scan_raw limit rerr raws) as [ts' e'] eqn:Er. injection H as <- <-.
+      specialize (IH ts' e' eq_refl). destruct e'.
+      * destruct IH as (-> & HF & Hr). split; [reflexivity|]. split; [constructor; assumption|exact Hr].
+      * destruct IH as (pre & x & post & -> & -> & HF & Hx). exists (l :: pre), x, post.
+        split; [reflexivity|]. split; [reflexivity|]. split; [constructor; assumption|exact Hx].
+      * destruct IH as (-> & HF & Hr). split; [reflexivity|]. split; [constructor; assumption|exact Hr].
+Qed.
+
+Section JsonInput.
+Variable deflate : bytes -> bytes.
+Variable inflate : bytes -> option bytes.
+Hypothesis inflate_deflate : forall p, inflate (deflate p) = Some p.
+
+Theorem json_total_input : forall parse limit inp rerr ls e n evs s r,
+  (forall l, parse l <> PBad true) -> 1 <= n < 2 ^ 31 ->
+  scan limit inp rerr = (ls, e) -> docs_ok KDyn (parsed parse ls) ->
+  let init := j_init true n (source parse limit inp rerr) in
+  j_run deflate init evs = Some s -> j_res s = Some r -> j_early deflate true true init evs = false ->
+  (e = ScanEof /\ Forall2 (fun l d => parse l = PDoc d) ls (parsed parse ls) /\
+   exists out dec, r = JOk out /\ decode_ftdc inflate None out = Some dec /\
+                   dc_docs dec = map strip_doc (parsed parse ls) /\ forallb (fun z => z <=? n) (dc_sizes dec) = true) \/
+  (input_bad parse ls e /\ exists e', r = JErr e').
+Proof.
+  intros parse limit inp rerr ls e n evs s r Hp Hn Hscan Hok. unfold source. rewrite Hscan.
+  apply (json_total deflate inflate inflate_deflate parse Hp); assumption.
+Qed.
+
+Theorem json_refusal_input : forall parse limit inp rerr ls e n evs s r,
+  (forall l, parse l <> PBad true) -> 1 <= n < 2 ^ 31 ->
+  scan limit inp rerr = (ls, e) ->
+  (forall d, In d (parsed parse ls) -> doc_wf d) -> distinguishable KDyn (fun d => In d (parsed parse ls)) ->
+  let init := j_init true n (source parse limit inp rerr) in
+  j_run deflate init evs = Some s -> j_res s = Some r -> j_early deflate true true init evs = false ->
+  (e = ScanEof /\ exists docs, Forall2 (fun l d => parse l = PDoc d) ls docs /\
+     ((exists out dec, r = JOk out /\ decode_ftdc inflate None out = Some dec /\
+                       dc_docs dec = map strip_doc docs /\ forallb (fun z => z <=? n) (dc_sizes dec) = true) \/
+      (exists a, a <> ROk /\ r = JErr (JAdd a)))) \/
+  (input_bad parse ls e /\ exists e', r = JErr e').
+Proof.
+  intros parse limit inp rerr ls e n evs s r Hp Hn Hscan Hwf Hdist. unfold source. rewrite Hscan.
+  assert (Hin : forall d, In (IDoc d) (script parse ls e) -> In d (parsed parse ls)).
+  { clear. induction ls as [|l ls IH]; intros d Hd; cbn [script] in Hd.
+    - destruct e; cbn [In] in Hd; try contradiction; destruct Hd as [Hd|[]]; discriminate Hd.
+    - unfold parsed. cbn [flat_map]. destruct (parse l) as [x|b].
+      + destruct Hd as [Hd|Hd]; [injection Hd as ->; left; reflexivity|]. apply in_or_app. right. apply IH. exact Hd.
+      + destruct Hd as [Hd|[]]. discriminate Hd. }
+  apply (json_complete deflate inflate inflate_deflate parse Hp); try assumption.
+  - intros d Hd. apply Hwf, Hin, Hd.
+  - intros a b Ha Hb. apply Hdist; apply Hin; assumption.
+Qed.
+
+Theorem json_never_short_input : forall parse limit inp rerr ls e n evs s out,
+  (forall l, parse l <> PBad true) -> scan limit inp rerr = (ls, e) ->
+  let init := j_init true n (source parse limit inp rerr) in
+  j_run deflate init evs = Some s -> j_res s = Some (JOk out) -> j_early deflate true false init evs = false ->
+  e = ScanEof /\ exists docs c, Forall2 (fun l d => parse l = PDoc d) ls docs /\
+    fed (dy_new n) docs c /\ JOk out = j_flush deflate c.
+Proof.
+  intros parse limit inp rerr ls e n evs s out Hp Hscan. unfold source. rewrite Hscan.
+  apply (json_never_short deflate parse Hp).
+Qed.
+
+Theorem json_live_input : forall parse limit inp rerr n,
+  let init := j_init true n (source parse limit inp rerr) in
+  exists evs s, j_run deflate init evs = Some s /\ j_res s <> None /\ j_early deflate true true init evs = false /\
+                (length evs <= S (length (source parse limit inp rerr)))%nat.
+Proof. intros parse limit inp rerr n. apply j_calm_runs. Qed.
+
+End JsonInput.
+
+(* ================================================================== non-vacuity *)
+Definition gen_ex (i now : Z) : doc := [(k_sample_id, VInt64 (wrap64 i)); ([116]%N, VDateTime 0)].
+
+Lemma wrap64_range : forall i, in_i64 (wrap64 i) = true.
+Proof.
+  intros i. unfold in_i64, wrap64. pose proof (Z.mod_pos_bound (i + 2 ^ 63) (2 ^ 64) ltac:(lia)) as H.
+  apply andb_true_iff. split; [apply Z.leb_le|apply Z.ltb_lt]; lia.
+Qed.
+
+Lemma wrap64_id : forall i, 0 <= i < 2 ^ 63 -> wrap64 i = i.
+Proof. intros i Hi. unfold wrap64. rewrite Z.mod_small by lia. lia. Qed.
+
+Lemma runtime_example :
+  (forall i t, doc_wf (gen_ex i t)) /\
+  (forall i t j u, skeleton_doc (gen_ex i t) = skeleton_doc (gen_ex j u)) /\
+  (forall i t, 0 <= i < 2 ^ 63 -> sample_id (strip_doc (gen_ex i t)) = Some i) /\
+  rt_valid (mkRopts (10 * ms) (2 * ms) 10 false true true false 0) = true /\
+  match x_runtime (mkRopts (10 * ms) (2 * ms) 10 false true true false 0)
+          (repeat (RvCollect 0) 12 ++ [RvFlush; RvFlush; RvCollect 0; RvCancel]) with
+  | Some ob => rb_res ob = Some RDone /\
+               rb_files ob = [Some (map Some (zseq 0 12), [10; 2]); Some ([Some 12], [1]); Some ([], [])]
+  | None => False
+  end.
+Proof.
+  split; [|split; [|split; [|split]]].
+  - intros i t. unfold gen_ex. split; [reflexivity|]. split.
+    + cbn [doc_leaves_ok leaves_ok]. rewrite wrap64_range. reflexivity.
+    + split; [unfold small; vm_compute; reflexivity|]. split; [reflexivity|vm_compute; reflexivity].
+  - intros i t j u. reflexivity.
+  - intros i t Hi. unfold gen_ex. cbn. rewrite wrap64_id by exact Hi. reflexivity.
+  - vm_compute. reflexivity.
+  - vm_compute. split; reflexivity.
+Qed.
+
+Lemma json_example :
+  (forall l, wit_parse l <> PBad true) /\
+  scan 8 [49; 13; 10; 50; 10; 10; 51]%N false = ([[49]; [50]; []; [51]]%N, ScanEof) /\
+  scan 8 [49; 10; 50; 50; 50; 50; 50; 50; 50; 50; 10; 51]%N false = ([[49]]%N, ScanTooLong) /\
+  docs_ok KDyn (parsed wit_parse wit_lines) /\
+  x_json_calm true 2 (script wit_parse wit_lines ScanEof) = JObsOk [wit_doc 49; wit_doc 50; wit_doc 51] [2; 1] /\
+  x_json_calm true 2 (script wit_parse [[49]; []; [51]]%N ScanEof) = JObsErr (JSrc (SParse false)).
+Proof.
+  split; [|split; [|split; [|split; [|split]]]].
+  - intros l. unfold wit_parse. destruct l as [|b [|c l]]; discriminate.
+  - vm_compute. reflexivity.
+  - vm_compute. reflexivity.
+  - split; [|split].
+    + repeat (constructor; [ex_doc_wf|]). constructor.
+    + intros a b Ha Hb. cbn [parsed wit_lines flat_map wit_parse app In] in Ha, Hb. ex_cases; ex_dist.
+    + intros a b Ha Hb Hs. cbn [parsed wit_lines flat_map wit_parse app In] in Ha, Hb. ex_cases; reflexivity.
+  - vm_compute. reflexivity.
+  - vm_compute. reflexivity.
 Qed.
